@@ -131,7 +131,7 @@ def _full(lg, res, op, k):
     if r is not out: res.violation(f'C12/full/{op}/bp8v-return', {'task': list(task)}, 'bp8v operator did not return its out argument')
     got_bp = bp_to_codes(out, n)
     _cmp(res, task, f'bp8v_{op}/k{k}', got_bp, exp, operands)
-    got_mv = mv_call(lg, op, operands) if (k >= 2 or op == 'not') else None
+    got_mv = mv_call(lg, op, operands)
     if any(not np.array_equal(a, b) for a, b in zip(operands, keep_ops)):
         res.violation(f'C12/full/{op}/mv-operand-modified/k{k}', {'task': list(task)}, f'mv_{op} modified one of its operands')
     if got_mv is not None:
@@ -223,7 +223,7 @@ def _lanes(lg, res, op, k, ch, nchunks):
                               f'bp8v_{op} tuple {tup} in lane {lane} beside {other}: got {got.tolist()} expected {exp.tolist()}')
             if np.any(out[:, 1] & 0xFE) and not np.all(codes_to_bp(got)[..., 1] == out[:, 1]):
                 pass  # padding lanes of the result are unspecified
-            got_mv = mv_call(lg, op, operands) if (k >= 2 or op == 'not') else None
+            got_mv = mv_call(lg, op, operands)
             if got_mv is not None and not np.all(ref.same_mod_unknown(got_mv, exp)):
                 res.violation(f'C12/lanes/{op}/mv/k{k}/' + ''.join(ref.CHARS[c] for c in tup) + f'@{lane}', {'task': list(task)},
                               f'mv_{op} tuple {tup} in lane {lane}: got {got_mv.tolist()} expected {exp.tolist()}')
